@@ -409,6 +409,12 @@ def strategy(focus, wrap=False):
                 t0 = draw(st.sampled_from([0.01, 0.05, 0.3]))
                 env.append({"at": t0, "ev": "node_down", "node": n, "blackhole": draw(st.booleans())})
                 env.append({"at": t0 + draw(st.sampled_from([0.1, 0.5, 2.0])), "ev": "node_up", "node": n})
+        if draw(st.integers(0, 3)) == 0:
+            # leader election: the partition has no leader for a while (metadata: leader -1, LEADER_NOT_AVAILABLE)
+            t = draw(st.sampled_from(topics))
+            at = draw(st.sampled_from([0.0, 0.01, 0.05, 0.2, 0.6]))
+            env.append({"at": at, "ev": "leader_gone", "topic": t["name"], "partition": draw(st.integers(0, t["partitions"] - 1)),
+                        "back_at": at + draw(st.sampled_from([0.03, 0.2, 0.8]))})
         start_seq = {}
         if wrap:
             for t in topics:
